@@ -295,9 +295,11 @@ def socknull(R):
     R.ob('C09.socknull', '_close_socket never raises', not esc, '_close_socket escapes %s' % esc, func=q, node=None,
          construct='_close_socket escapes %s' % esc)
     st = [n for n in g.live_nodes() if n.kind == 'stmt' and isinstance(n.ast, ast.Assign) and U(n.ast.targets[0]) == 'self._sock']
-    early = [r for r in g.live_nodes() if r.kind == 'stmt' and isinstance(r.ast, ast.Return)
-             and ('self._sock is None', True) in {(t, p) for (t, p, _) in guards_of(g, r)}]
-    ok = all_paths_pass(g, [g.entry], st + early, [g.exit])
+    # every path to the exit either stores None or has found the socket absent already (early return or guard)
+    from ..dataflow import ReachingDefs as _RD
+    bad = [sorted(l) for l in path_conditions(R, g, _RD(g), g.entry, g.exit, through_exc=True, avoid=set(st))
+           if ('self._sock is None', True) not in l]
+    ok = not bad
     R.ob('C09.socknull', '_close_socket leaves _sock None on every path', ok and bool(st), '_sock can stay set after _close_socket()',
          func=q, node=None, construct='_close_socket nulls')
     cl = ext_calls(R, g, {'socket.close'})
